@@ -570,24 +570,33 @@ func (sh *SyncHandler) runSync(syncType string, enumSrc func(chan<- blob.SizedRe
 
 	nCopied := 0
 	toCopy := 0
+	nDone := 0
 
 	workch := make(chan blob.SizedRef, 1000)
 	resch := make(chan copyResult, 8)
-FeedWork:
 	for sb := range enumch {
 		if toCopy < sh.copierPoolSize {
 			go sh.copyWorker(resch, workch)
 		}
-		select {
-		case workch <- sb:
-			toCopy++
-		default:
-			// Buffer full. Enough for this batch. Will get it later.
-			break FeedWork
+	Feed:
+		for {
+			select {
+			case workch <- sb:
+				toCopy++
+				break Feed
+			case res := <-resch:
+				// The work buffer is full. Giving up here ("will get it later") is wrong for
+				// a full sync, which has no later, and left the enumerator blocked on enumch
+				// while we waited for it on errch. Collect results instead, which makes room.
+				nDone++
+				if res.err == nil {
+					nCopied++
+				}
+			}
 		}
 	}
 	close(workch)
-	for i := 0; i < toCopy; i++ {
+	for ; nDone < toCopy; nDone++ {
 		sh.setStatusf("Copying blobs")
 		res := <-resch
 		if res.err == nil {
